@@ -267,6 +267,42 @@ def split_traces(trace_p):
     return res
 
 
+def conformance(scn_by_name, traces):
+    """Model behaviours replayed on the real code (family conform / witness): how many were followed to the end of the script and
+    whether the state predicted by the model agrees with the observed one there."""
+    st = {"model_behaviours_replayed": 0, "followed_to_end": 0, "final_state_agrees": 0, "script_steps": 0, "disagreements": []}
+    for name, evs in traces.items():
+        sc = scn_by_name.get(name)
+        if not sc or not sc.get("script"):
+            continue
+        st["model_behaviours_replayed"] += 1
+        st["script_steps"] += len(sc["script"])
+        end = next((e for e in evs if e.get("ev") == "script_end"), None)
+        if not end or end.get("aborted"):
+            continue
+        st["followed_to_end"] += 1
+        exp = sc.get("expect")
+        if not exp:
+            continue
+        k = evs.index(end)
+        snaps = {}
+        for e in evs[:k]:
+            if e.get("ev") == "snap":
+                snaps[e["i"]] = e
+        ok = True
+        for i, x in exp["el"].items():
+            sn = snaps.get(i)
+            if sn is None or bool(sn["leader"]) != bool(x["leader"]) or (x["life"] in ("running", "stopped") and sn["state"] != x["state"]):
+                ok = False
+                st["disagreements"].append({"scenario": name, "instance": i, "model": x, "real": sn and {"leader": sn["leader"], "state": sn["state"]}})
+        if (exp["rec"]["kind"] == "val") != (end.get("rec_kind") == "val") or (exp["rec"]["kind"] == "val" and exp["rec"]["id"] != end.get("id")):
+            ok = False
+            st["disagreements"].append({"scenario": name, "model_rec": exp["rec"], "real_rec": {"kind": end.get("rec_kind"), "id": end.get("id")}})
+        st["final_state_agrees"] += ok
+    st["disagreements"] = st["disagreements"][:5]
+    return st
+
+
 def check_behavioural(pid, tier, seed):
     t0 = time.time()
     th = tree_hash()
@@ -278,6 +314,7 @@ def check_behavioural(pid, tier, seed):
     samples = []
     violations = []
     crashes = []
+    conf = {}
     for fam in fams:
         d, meta = corpus(th, fam, tier, seed)
         total_scn += meta["scenarios"]
@@ -288,6 +325,10 @@ def check_behavioural(pid, tier, seed):
             s = json.loads(line)
             scn_by_name[s["name"]] = s
         traces = split_traces(os.path.join(d, "trace.ndjson"))
+        if fam in ("conform", "witness"):
+            c = conformance(scn_by_name, traces)
+            for k2, v2 in c.items():
+                conf[k2] = (conf.get(k2, 0) + v2) if isinstance(v2, int) else (conf.get(k2, []) + v2)[:5]
         for name, evs in traces.items():
             if families.nontrivial(pid, evs):
                 hsh = hashlib.sha1(json.dumps([(e.get("ev"), e.get("i"), e.get("kind"), e.get("ok")) for e in evs]).encode()).hexdigest()
@@ -349,7 +390,7 @@ def check_behavioural(pid, tier, seed):
                     "MonitorTrace.tla; non-trivial = " + spec["nontrivial_rule"] + "; distinct by the sequence of (event, instance, kind, ok)",
             "model_states_distinct": mc.get("distinct", 0), "model_states_generated": mc.get("generated", 0),
             "model_cfgs": mc.get("cfgs", []), "monitor_events_checked": total_ev,
-            "families": fams, "harness_crashes": crashes, "known_findings_hit": sorted(kn.keys()),
+            "families": fams, "harness_crashes": crashes, "conformance_replay_of_model_behaviours": conf, "known_findings_hit": sorted(kn.keys()),
             "exhaustive": False,
         },
         "assumptions": spec.get("assumptions", []) + [
